@@ -267,6 +267,122 @@ fn strat_frag(t: Tier) -> proptest::strategy::BoxedStrategy<FragCase> {
     }
 }
 
+// ---- rejected calls whose payloads add up to more than 2^32 bytes (one shared 32 MiB buffer offered 136 times)
+
+#[derive(Clone, Debug, serde::Serialize, serde::Deserialize, PartialEq, Eq, Hash)]
+pub struct VolumeCase {
+    /// 0: progressive, invalid audio payloads; 1: progressive, video frames with a non-increasing timestamp; 2: fragmented, decreasing DTS
+    pub family: u8,
+    pub codec: u8,
+    pub audio: u8,
+    pub times: u16,
+    pub mib: u16,
+}
+
+fn volume_cases(_t: Tier) -> Vec<VolumeCase> {
+    vec![
+        VolumeCase { family: 0, codec: 0, audio: 1, times: 136, mib: 32 },
+        VolumeCase { family: 0, codec: 2, audio: 7, times: 136, mib: 32 },
+        VolumeCase { family: 1, codec: 1, audio: 0, times: 136, mib: 32 },
+        VolumeCase { family: 2, codec: 0, audio: 0, times: 136, mib: 32 },
+        VolumeCase { family: 2, codec: 3, audio: 0, times: 70, mib: 64 },
+    ]
+}
+
+fn eval_volume(c: &VolumeCase) -> Outcome {
+    use crate::exec::{guarded, CCfg};
+    let mut o = Outcome::default();
+    o.nontrivial = true;
+    let mut huge = vec![0x5au8; (c.mib as usize) << 20];
+    // invalid as ADTS (no sync word) and as an Opus packet (code 3 with a frame count of zero)
+    huge[0] = 0x03;
+    huge[1] = 0x00;
+    let run = |with_rejected: bool| -> Result<(Vec<String>, Vec<u8>), String> {
+        guarded(|| {
+            let mut log: Vec<String> = Vec::new();
+            if c.family == 2 {
+                let fc = crate::fragcase::FragCase { codec: c.codec, via_builder: false, start: 0, width: 640, height: 480, pset_len: (12, 5, 7), ops: vec![], const_interval: None, realistic: true };
+                let mut m = match build_frag(&crate::fragcase::fcfg(&fc)) {
+                    Ok(Ok(m)) => m,
+                    _ => return (vec!["build failed".into()], vec![]),
+                };
+                let mut out = Vec::new();
+                for seg in 0..3u64 {
+                    for i in 0..4u64 {
+                        let dts = 100_000 + (seg * 4 + i) * 3000;
+                        log.push(format!("{:?}", m.write_video(dts, dts, &crate::fragcase::realistic_payload(c.codec, 40, i == 0, seg * 4 + i), i == 0).is_ok()));
+                        if with_rejected && seg == 0 && i == 1 {
+                            for _ in 0..c.times {
+                                let r = m.write_video(5, 5, &huge, false);
+                                if r.is_ok() {
+                                    log.push("a write with a decreasing DTS was accepted".into());
+                                }
+                            }
+                        }
+                        log.push(format!("{} {}", m.ready_to_flush(), m.current_fragment_duration_ms()));
+                    }
+                    match m.flush_segment() {
+                        Some(sg) => {
+                            log.push(format!("segment of {} bytes", sg.len()));
+                            out.extend_from_slice(&sg);
+                        }
+                        None => log.push("no segment".into()),
+                    }
+                }
+                return (log, out);
+            }
+            let mut cfg = CCfg::basic(c.codec);
+            cfg.audio = c.audio;
+            cfg.channels = 1;
+            let sink = crate::exec::RecSink::new();
+            let mut m = match crate::exec::build_muxer(sink.clone(), &cfg) {
+                Ok(m) => m,
+                Err(e) => return (vec![format!("build: {}", e)], vec![]),
+            };
+            let key = vframe(c.codec, &VF { kind: VKind::KeyCfg, size: 30, shape: 0 }, 0).0;
+            log.push(format!("{:?}", m.write_video(0.0, &key, true).is_ok()));
+            let afr = |i: u64| aframe(&cfg, &AF { kind: AKind::Valid, size: 9, shape: 33 }, 100 + i).0;
+            for i in 0..6u64 {
+                if c.audio != 0 {
+                    log.push(format!("a{:?}", m.write_audio(i as f64 * 0.02, &afr(i)).map_err(|e| format!("{}", e))));
+                }
+                if i > 0 {
+                    let d = vframe(c.codec, &VF { kind: VKind::Delta, size: 12, shape: 0 }, i).0;
+                    log.push(format!("v{:?}", m.write_video(i as f64 / 30.0, &d, false).map_err(|e| format!("{}", e))));
+                }
+                if with_rejected && i == 2 {
+                    for _ in 0..c.times {
+                        let r = if c.family == 0 { m.write_audio(0.05, &huge) } else { m.write_video(2.0 / 30.0, &huge, false) };
+                        if r.is_ok() {
+                            log.push("a call that must be rejected was accepted".into());
+                        }
+                    }
+                }
+            }
+            log.push(format!("{:?}", m.finish_in_place_with_stats().map_err(|e| format!("{}", e))));
+            (log, sink.bytes())
+        })
+    };
+    let a = run(true);
+    let b = run(false);
+    match (a, b) {
+        (Ok((la, oa)), Ok((lb, ob))) => {
+            if la != lb {
+                let k = la.iter().zip(lb.iter()).position(|(x, y)| x != y).unwrap_or(la.len().min(lb.len()));
+                o.fail(
+                    "decisions",
+                    format!("decisions.after_rejected_volume.family{}", c.family),
+                    format!("after {} rejected calls offering {} MiB each, step {} returns {:?} but {:?} without them", c.times, c.mib, k, la.get(k), lb.get(k)),
+                );
+            } else if oa != ob {
+                o.fail("bytes", format!("bytes.after_rejected_volume.family{}", c.family), format!("output differs after {} rejected calls offering {} MiB each", c.times, c.mib));
+            }
+        }
+        (Err(p), _) | (_, Err(p)) => o.aborted_by_panic = Some(p),
+    }
+    o
+}
+
 pub fn def() -> PropertyDef {
     PropertyDef {
         fuzz_targets: &["c04_history"],
@@ -280,6 +396,12 @@ pub fn def() -> PropertyDef {
             Box::new(PSub { name: "progressive", quick: 40000, thorough: 1200000, strat, eval }),
             Box::new(PSub { name: "fragmented", quick: 20000, thorough: 600000, strat: strat_frag, eval: eval_frag }),
             Box::new(LSub { name: "bursts_and_long", cases: burst_cases, eval, note: BURST_NOTE }),
+            Box::new(LSub {
+                name: "rejected_volume",
+                cases: volume_cases,
+                eval: eval_volume,
+                note: "fixed list: one shared 32 / 64 MiB buffer offered 136 / 70 times in rejected calls (invalid audio payload, non-increasing video timestamp, decreasing fragmented DTS): more than 2^32 rejected bytes on one muxer, compared with the same history without them",
+            }),
         ],
     }
 }
